@@ -114,7 +114,9 @@ def _scenario_shard(arg):
         rc, out, _ = pr.run([])
         if rc != 0:
             raise core.HarnessError('initial build failed: ' + out[-300:])
+        proj.tick()
         SCENARIOS[scen](pr.src)
+        proj.tick()
     pre = os.path.join(root, 'pre')
     proj.snapshot(pr.root, pre)
 
